@@ -12,17 +12,46 @@ CONFIGS = {
     "nocopy": ("4afff0ca", {"DataImmutable", "FitRepeatable"}, ["FitLeavesDataAlone", "FitReturnsOrDataSufficiencyError"]),
     "noclusters": ("bf57b4b9", {"PredictPure", "PredStable"}, ["PredictPure", "PredSameAcrossHistory"]),
     "norefresh": ("29f9c0e7", {"StoredDqIsModelDq", "GateSurvivesStorage"}, ["LoadKeepsDisqualifications", "PredictGate"]),
+    # hazards: no commit of /repo stands behind them; each was observed in a seeded change (the id in place of the commit)
+    "sharedscalers": ("seeded/C01_shared_scaler_instances", {"RestoredModelsIndependent", "ResavedScalerIsOwn"}, ["PredSameAfterReload", "ReserialisesToSameDocument"]),
+    "handoutcache": ("seeded/C02_baseline_prediction_handed_out_by_reference", {"HandOutsAreCopies"}, ["PredSameAcrossHistory"]),
+    "coarsememo": ("seeded/C03_fitting_settings_memo, seeded/C16_error_metrics_memo_survives_refit", {"FitDependsOnItsOwnData"}, ["FitJsonSameAcrossFits", "ReportedStatisticsAreThoseOfTheLastFit"]),
+    "rejectwipes": ("seeded/C04_refit_wipes_dq", {"GateSurvivesStorage", "StoredDqIsModelDq"}, ["PredictGate"]),
 }
-OWNER = {"C02": ["repaired", "nocopy", "noclusters"], "C04": ["repaired", "norefresh"]}
+OWNER = {"C01": ["repaired", "sharedscalers"], "C02": ["repaired", "nocopy", "noclusters", "handoutcache"], "C03": ["repaired", "coarsememo"],
+         "C04": ["repaired", "norefresh", "rejectwipes"]}
+THEOREMS = {"DataImmutable", "PredictPure", "FitRepeatable", "PredStable", "StoredDqIsModelDq", "GateSurvivesStorage",
+            "RestoredModelsIndependent", "ResavedScalerIsOwn", "HandOutsAreCopies", "FitDependsOnItsOwnData"}
 
 
 def run(prop):
+    """the result depends on /verif/spec only (not on /repo): cached by the hash of the module and its configurations"""
+    import glob, hashlib, json, os
+    h = hashlib.sha256()
+    for f in sorted(glob.glob(os.path.join(tlc.SPEC, "LifeImpl*"))):
+        h.update(open(f, "rb").read())
+    key = h.hexdigest()[:16]
+    cache = os.path.join(tlc.workdir("lifeimpl_cache"), "%s.json" % prop)
+    if os.path.exists(cache):
+        try:
+            c = json.load(open(cache))
+            if c.get("key") == key:
+                c["out"]["cached"] = True
+                return c["out"], c["states"], c["trans"]
+        except Exception:
+            pass
+    out, states, trans = _run(prop)
+    json.dump({"key": key, "out": out, "states": states, "trans": trans}, open(cache, "w"))
+    return out, states, trans
+
+
+def _run(prop):
     out = {"module": "LifeImpl.tla", "configs": {}}
     states = trans = 0
     for name in OWNER.get(prop, []):
         commit, expect, clauses = CONFIGS[name]
         res = tlc.run("LifeImpl", "LifeImpl_%s.cfg" % name, "lifeimpl_%s_%s" % (prop, name), cont=True, workers=4, timeout=900)
-        violated = {v for v in res.violations if v in {"DataImmutable", "PredictPure", "FitRepeatable", "PredStable", "StoredDqIsModelDq", "GateSurvivesStorage"}}
+        violated = {v for v in res.violations if v in THEOREMS}
         if violated != expect:
             raise tlc.TLCError("LifeImpl configuration %s: theorems violated %s, expected %s - the I-layer no longer explains the repair" % (
                 name, sorted(violated), sorted(expect)))
@@ -30,6 +59,7 @@ def run(prop):
                                 "theorems_violated": sorted(violated), "rejecting_clauses_on_real_code_when_reverted": clauses}
         states += res.distinct
         trans += res.generated
-    out["note"] = ("with every repair on (the current tree) all six theorems hold over all histories of <= 5 calls on 2 slots; with one repair off TLC "
-                   "returns minimal histories violating the listed theorems (leads, replayed on the real code by tools/try_revert.sh)")
+    out["note"] = ("with every repair on and every hazard off (the current tree) all ten theorems hold over all histories of <= 5 calls on 2 slots "
+                   "(two documents of an earlier process in the store); with one repair off / one hazard on TLC returns minimal histories violating the "
+                   "listed theorems (repairs: replayed on the real code by tools/try_revert.sh; hazards: by the seeded change named, tools/regress_seeded.sh)")
     return out, states, trans
